@@ -195,6 +195,9 @@ def run(ctx, rep):
         key_ok = key is not None and (has_var(key, 'group_id') or any(y[0] == 'field' and y[2] == 'group_id' for y in walk(key)))
         rep.ob('R07.e', 'server::streaming::topics::topic::Topic::delete_consumer_group', 'every partition, keyed by group id', it and key_ok, r.where(),
                'removal runs inside the loop over self.partitions and is keyed by the group id' if it and key_ok else 'removal is not inside a loop over all partitions or is not keyed by the group id')
+        okc, detail, _it = loop_coverage(tb, r)
+        rep.ob('R07.e', 'server::streaming::topics::topic::Topic::delete_consumer_group', 'no partition is skipped and the loop ends only by exhaustion or error', okc, r.where(), detail if okc else
+               detail + ': the offsets of the group survive on the partitions that were not visited and are inherited by the next group created under the same id')
 
     # ------------------------------------------------------------ R07.f auto-commit
     rep.rule('R07.f', 'auto-commit stores the offset of the last returned message, for the same consumer and partition, only when requested and non-empty', floor=4, analysis='A9+A3')
@@ -292,6 +295,13 @@ def run(ctx, rep):
         T + '::delete_consumer_offset': {'resolve_consumer_with_partition_id': ['consumer, client_id, partition_id, 0']},
         'server::streaming::systems::system::System::poll_messages': {'resolve_consumer_with_partition_id': ['consumer, session.client_id, partition_id, 1']},
     })
+    # the "current partition" that store/get/delete fall back to is the one the last poll resolved: calculate_partition_id records it
+    from forms import field_assignments
+    CGM = 'server::streaming::topics::consumer_group::ConsumerGroupMember'
+    cur = [(fn, form) for fn, b_, bb_, ln, form in field_assignments(ctx, CGM, 'current_partition_id') if fn == CGM + '::calculate_partition_id']
+    okcur = any(form != 'Option::None{}' and 'partitions' in form for fn, form in cur)
+    rep.ob('R07.i', CGM + '::calculate_partition_id', 'the polled partition becomes the current one', okcur, None, str([f for _, f in cur])[:140] if okcur else
+           'calculate_partition_id does not record the partition it returns as current_partition_id (assignments: %s): a group offset stored without a partition id lands on another partition than the one polled last' % [f for _, f in cur])
     callers = {ctx.user_fn_of(f) for f, c in callers_of(ctx, T + '::resolve_consumer_with_partition_id')}
     extra = callers - {T + '::store_consumer_offset', T + '::get_consumer_offset', T + '::delete_consumer_offset', 'server::streaming::systems::system::System::poll_messages'}
     rep.ob('R07.i', T + '::resolve_consumer_with_partition_id', 'callers', not extra, None, '%d callers' % len(callers) if not extra else 'resolver called from unconfirmed places: %s' % sorted(extra))
